@@ -53,7 +53,7 @@ LEVEL_NOTE = ("Sampled. 20 open finding signatures (about 12 root causes) "
               "cases that hit a resolver crash end there, the rest of the "
               "space is searched normally.")
 REGISTERED = False
-NONTRIVIAL_FLOOR = {"quick": 150, "thorough": 5000}
+NONTRIVIAL_FLOOR = {"quick": 500, "thorough": 5000}
 
 DELEGATING_ACCESSORS = {"exec": "is_executable", "has_filename": "has_filename",
                         "stored_kind": "stored_kind", "sha1": "get_file_sha1",
@@ -81,7 +81,7 @@ SIG_ATTR = {
 GIT_DIR_MOVE = "C14/git-directory-move-leaves-children-at-old-index-paths"
 
 
-def compare(facts, pv, av, fmt="2a", git_dir_move=False):
+def compare(facts, pv, av, fmt="2a", git_dir_move=False, old_paths=()):
     """-> [(signature, detail)] preview view vs applied view."""
     out = []
     tag = ":git" if fmt == "git" else ""
@@ -94,6 +94,11 @@ def compare(facts, pv, av, fmt="2a", git_dir_move=False):
             elif p not in av:
                 out.append(("C14/preview-lists-path-missing-after-apply:" +
                              cls + tag, [p, pv[p]]))
+            elif p in old_paths:
+                # a path of the original tree that the preview dropped
+                out.append((
+                    "C14/applied-tree-keeps-old-path-missing-from-preview" +
+                    tag, [p, av[p]]))
             else:
                 out.append((
                     "C14/applied-tree-has-path-missing-from-preview" + tag,
@@ -122,8 +127,7 @@ def compare(facts, pv, av, fmt="2a", git_dir_move=False):
                 out.append((
                     "C14/preview-%s-delegates-to-original-tree-at-preview-"
                     "path" % DELEGATING_ACCESSORS[a], [p, cls, x, y]))
-            elif a == "text" and x == "EXC:NoSuchId" and \
-                    cls == "newly-versioned":
+            elif a in ("text", "target") and cls == "newly-versioned":
                 out.append((
                     "C14/preview-get_file-looks-up-new-file-id-in-original-"
                     "tree", [p, cls, x, y]))
@@ -181,12 +185,16 @@ def check_case(case, env, build):
         if raw:
             try:
                 resolve_conflicts(tt)
-            except MalformedTransform:
+            except MalformedTransform as e:
                 _fin(tt)
-                if set(kinds) <= RESOLVABLE:
-                    # each of these has a resolver that is documented to
-                    # repair it; giving up after 10 passes means a resolver
-                    # returned without changing the transform
+                final = sorted({c[0] for c in e.conflicts})
+                if len(kinds) == 1 and final == kinds and \
+                        kinds[0] in RESOLVABLE:
+                    # a lone conflict of a kind whose resolver is documented
+                    # to repair it, still alone after 10 passes: the resolver
+                    # returned without changing the transform.  (When other
+                    # kinds appear on the way the transform may legitimately
+                    # end malformed.)
                     return violation(
                         "C14/resolvable-conflicts-end-malformed:" +
                         "+".join(kinds), [case, kinds])
@@ -251,7 +259,7 @@ def check_case(case, env, build):
             "C14/applied-tree-unreadable-after-apply:%s%s" % (
                 type(e).__name__, ":git" if case["fmt"] == "git" else ""),
             [case, kinds, str(e)[:200]])
-    found = compare(facts, pv, av, case["fmt"], git_dir_move)
+    found = compare(facts, pv, av, case["fmt"], git_dir_move, set(v0))
     moved_dir = any(c == "moved" and pv[p]["entry_kind"] == "directory" and
                     any(q.startswith(p + "/") for q in pv)
                     for p, c in classes.items())
@@ -355,11 +363,17 @@ def gen_script(draw):
         free = [n for n in ("u", "v") if n not in snap]
         extras = [[n, "extra\n"] for n in free[:draw(st.integers(1, 2))]]
     tr = P.Tracker(snap, {p: "file" for p, _ in extras})
+    base_ids = sorted(f for f in m if f != tm.ROOT_ID)
     script = []
     nid = 0
 
     def anyref():
         return list(draw(st.sampled_from([("r",)] + tr.refs())))
+
+    if draw(st.integers(0, 2)) == 0:
+        # a path that does not exist in the tree: entries put below it have
+        # a 'missing parent' that only create_directory can repair
+        tr.add_ghost("ghost")
 
     for _ in range(draw(st.integers(1, 12))):
         k = draw(st.sampled_from(
@@ -372,6 +386,11 @@ def gen_script(draw):
         if k.startswith("new_") and draw(st.integers(0, 4)) != 0:
             nid += 1
             fid = "n%d-id" % nid
+            if base_ids and draw(st.integers(0, 7)) == 0:
+                # an id the tree already uses: 'duplicate id' (each one at
+                # most once: version_file refuses an id twice per transform)
+                fid = draw(st.sampled_from(base_ids))
+                base_ids.remove(fid)
         if k == "new_file":
             ops = [["new_file", draw(st.sampled_from(NAMES)), anyref(),
                     draw(tm.text_strategy()), fid,
@@ -392,7 +411,11 @@ def gen_script(draw):
             ops = [["adjust", name, parent, r]]
         elif k == "version":
             nid += 1
-            ops = [["version", anyref(), "n%d-id" % nid]]
+            vid = "n%d-id" % nid
+            if base_ids and draw(st.integers(0, 7)) == 0:
+                vid = draw(st.sampled_from(base_ids))
+                base_ids.remove(vid)
+            ops = [["version", anyref(), vid]]
         elif k == "set_exec":
             ops = [["set_exec", draw(st.booleans()), anyref()]]
         elif k == "create_file":
@@ -423,7 +446,7 @@ def kinds(tier):
         Kind("symlink-to-directory", run_diff, enumerate=enum_symlink_dir,
              hash_cases=False),
         Kind("diff-transforms", run_diff, strategy=gen_diff(),
-             examples={"quick": 400, "thorough": 15000}),
+             examples={"quick": 1000, "thorough": 15000}),
         Kind("raw-scripts", run_script, strategy=gen_script(),
-             examples={"quick": 400, "thorough": 15000}),
+             examples={"quick": 1400, "thorough": 15000}),
     ]
